@@ -44,6 +44,7 @@ type Solver struct {
 	Queries   int
 	Errors    int
 	Unknowns  int
+	Retries   int
 	SolveTime time.Duration
 	LastError string
 }
@@ -191,6 +192,17 @@ func (s *Solver) Assert(t *Term) {
 
 // Check runs (check-sat) on this solver only (not the mirror).
 func (s *Solver) Check() Result {
+	r := s.check1()
+	if r == Unknown && s.LastError == "" {
+		// a soft time-out on a loaded machine: ask once more before giving up
+		s.Unknowns--
+		s.Retries++
+		r = s.check1()
+	}
+	return r
+}
+
+func (s *Solver) check1() Result {
 	s.send("(check-sat)\n")
 	s.flush()
 	s.Queries++
